@@ -290,6 +290,8 @@ SUBS = [
     Sub("edit-histories", check, gen=lambda tier: st.one_of(_bool.edit_histories(S.BOOLEAN_ANY, 12), _bool.edit_histories(S.ANY, 12)), nontrivial=lambda case: True,
         classes=lambda case: {"edit:" + e["label"] for e in case["edits"]}, n={"quick": 150, "thorough": 1500},
         essential=["edit:move", "edit:add-feature", "edit:remove-leaf"]),
+    Sub("twin-subtrees", check, gen=lambda tier: _bool.twin_subtree_models().map(lambda m: {"model": m}), nontrivial=lambda case: True,
+        classes=lambda case: {"twin-subtrees"}, n={"quick": 100, "thorough": 1500}),
     Sub("deep-chains", check, enum=enum_deep, nontrivial=nontrivial, classes=classes, shards={"quick": 6, "thorough": 6}),
     Sub("rounding-boundaries", check, enum=enum_rounding, nontrivial=lambda case: True,
         classes=lambda case: {"rounding-boundary"}, exhaustive=False),
